@@ -360,7 +360,7 @@ func writeEvidence(p *Property, opts *Options, specs []*HarnessSpec, results []*
 		harn = append(harn, map[string]interface{}{
 			"name": R.Spec.Name, "package": R.Spec.Pkg, "description": R.Spec.Desc, "paths": R.Paths, "fork_decisions": R.Decisions,
 			"outcomes": R.Outcomes, "assertions": al, "params": R.Spec.Params, "unwind": R.Spec.Unwind, "ssa_steps": R.Steps,
-			"wall_s": R.Wall.Seconds(),
+			"wall_s": R.Wall.Seconds(), "feasibility_unknown_branches_kept": R.FeasUnknown,
 		})
 	}
 	if len(samples) == 0 {
